@@ -88,6 +88,9 @@ def _shapes(tier, t, W, reduced):
         for K in (2, 3):
             S.add((3 * W, K, n3)); S.add((3 * W, K, n3 + 1))
         S.add((12, 2, n3))
+        # rows left between the two-sub-block row loop and the scalar rows (M >= 2W with M % 8 in 4..7): the four-row middle zone
+        for (K, N) in ((3, 2 * W + 3), (2, W + 2), (3, 3 * W + 1)):
+            S.add((2 * W + 5, K, N))
     else:
         b = 6 if not reduced else 4
         for M in range(1, b + 1):
@@ -112,6 +115,10 @@ def _shapes(tier, t, W, reduced):
                 for K in (2, 7):
                     if M >= 1 and N >= 1:
                         S.add((M, K, N))
+        for M in (2 * W + 4, 2 * W + 5, 2 * W + 7):
+            for K in (2, 3):
+                for N in (W + 2, 2 * W + 1, 2 * W + 3, 3 * W + 1, 4 * W + 3):
+                    S.add((M, K, N))
         S.add((8, 8, 8)); S.add((16, 16, 16))
     return sorted(S)
 
@@ -163,7 +170,7 @@ def cases(tier, cfg):
 
 
 def bounds(tier):
-    return {"quick": "cube M,K,N<=4; M in {1..5,9..13,21} x K in {1,3} x N in {1..2W+1} u {kW-1,kW,kW+1:k=3,4,5} u {5W+2}; 8^3; "
+    return {"quick": "cube M,K,N<=4; M in {1..5,9..13,21} x K in {1,3} x N in {1..2W+1} u {kW-1,kW,kW+1:k=3,4,5} u {5W+2}; 8^3; M=2W+5 (four-row middle zone) x three (K,N); "
                      "types f32,f64,i32 full, i64,c64 reduced; six ISAs",
             "thorough": "cube <=6; M in {1..13,16,17,20,21,24,25} x K in {1,2,3,5,8} x N in 1..5W+2; block corners; "
                         "all six types; six ISAs + C++17, O0, O3, ASan+UBSan, clang, matmul block-size macros"}[tier]
